@@ -56,14 +56,19 @@ Definition oexec := (nat * bool * N)%type.
 Record seg := { s_conn : nat; s_denied : bool; s_ins : list input;
                 s_replies : list oreply; s_execs : list oexec; s_end : endst }.
 
-Record case := { k_sty : servertype; k_q1 : bool; k_q2 : bool; k_q3 : bool; k_segs : list seg }.
+(* a case interleaves segments with what the application does to the registry (register / unregister by id /
+   unregister by object / collection of a weakly registered object) *)
+Inductive item := ISeg (s : seg) | IApp (a : appev).
+
+(* k_reg0: the ids (besides the daemon's own) registered when the case starts *)
+Record case := { k_sty : servertype; k_q1 : bool; k_q2 : bool; k_q3 : bool; k_reg0 : list N; k_items : list item }.
 
 (* run the inputs of one segment; collect all outputs *)
-Fixpoint run_seg (g : cfg) (sty : servertype) (st : conns) (c : nat) (d : bool) (ms : list input) : conns * list out :=
+Fixpoint run_seg (g : cfg) (sty : servertype) (st : state) (c : nat) (d : bool) (ms : list input) : state * list out :=
   match ms with
   | [] => (st, [])
   | m :: r =>
-      let '(st1, o1) := step g sty st {| e_conn := c; e_in := m; e_denied := d |} in
+      let '(st1, o1) := step g sty st (EvConn {| e_conn := c; e_in := m; e_denied := d |}) in
       let '(st2, o2) := run_seg g sty st1 c d r in
       (st2, o1 ++ o2)
   end.
@@ -100,32 +105,40 @@ Definition subset_execs (a b : list oexec) : bool := forallb (fun x => existsb (
 Definition same_execs (a b : list oexec) : bool :=
   Nat.eqb (length a) (length b) && subset_execs a b && subset_execs b a.
 
-Definition model_seg (g : cfg) (sty : servertype) (st : conns) (s : seg)
-  : conns * (list oreply * list oexec * endst) :=
+Definition model_seg (g : cfg) (sty : servertype) (st : state) (s : seg)
+  : state * (list oreply * list oexec * endst) :=
   let '(st', os) := run_seg g sty st (s_conn s) (s_denied s) (s_ins s) in
-  (st', (replies_of (s_conn s) os, execs_of os, end_of (st' (s_conn s)))).
+  (st', (replies_of (s_conn s) os, execs_of os, end_of (s_conns st' (s_conn s)))).
 
-Definition check_seg (g : cfg) (sty : servertype) (st : conns) (s : seg) : conns * bool :=
+Definition check_seg (g : cfg) (sty : servertype) (st : state) (s : seg) : state * bool :=
   let '(st', os) := run_seg g sty st (s_conn s) (s_denied s) (s_ins s) in
   (st', list_eqb oreply_eqb (replies_of (s_conn s) os) (s_replies s) &&
         Nat.eqb (foreign_replies (s_conn s) os) 0 &&
         same_execs (execs_of os) (s_execs s) &&
-        endst_eqb (end_of (st' (s_conn s))) (s_end s)).
+        endst_eqb (end_of (s_conns st' (s_conn s))) (s_end s)).
 
-Fixpoint check_segs (g : cfg) (sty : servertype) (st : conns) (l : list seg) : bool :=
+Fixpoint check_items (g : cfg) (sty : servertype) (st : state) (l : list item) : bool :=
   match l with
   | [] => true
-  | s :: r => let '(st', ok) := check_seg g sty st s in ok && check_segs g sty st' r
+  | ISeg s :: r => let '(st', ok) := check_seg g sty st s in ok && check_items g sty st' r
+  | IApp a :: r => check_items g sty (fst (step g sty st (EvApp a))) r
   end.
 
+Definition start_state (g : cfg) (sty : servertype) (reg0 : list N) : state :=
+  final g sty init_state (map (fun n => EvApp (Register n)) reg0).
+
 Definition check_case (k : case) : bool :=
-  check_segs (gen_cfg (k_q1 k) (k_q2 k) (k_q3 k)) (k_sty k) init (k_segs k).
+  let g := gen_cfg (k_q1 k) (k_q2 k) (k_q3 k) in
+  check_items g (k_sty k) (start_state g (k_sty k) (k_reg0 k)) (k_items k).
 
 (* diagnostics: what the model says for every segment *)
-Fixpoint model_segs (g : cfg) (sty : servertype) (st : conns) (l : list seg)
+Fixpoint model_items (g : cfg) (sty : servertype) (st : state) (l : list item)
   : list (list oreply * list oexec * endst) :=
   match l with
   | [] => []
-  | s :: r => let '(st', o) := model_seg g sty st s in o :: model_segs g sty st' r
+  | ISeg s :: r => let '(st', o) := model_seg g sty st s in o :: model_items g sty st' r
+  | IApp a :: r => model_items g sty (fst (step g sty st (EvApp a))) r
   end.
-Definition model_case (k : case) := model_segs (gen_cfg (k_q1 k) (k_q2 k) (k_q3 k)) (k_sty k) init (k_segs k).
+Definition model_case (k : case) :=
+  let g := gen_cfg (k_q1 k) (k_q2 k) (k_q3 k) in
+  model_items g (k_sty k) (start_state g (k_sty k) (k_reg0 k)) (k_items k).
